@@ -36,6 +36,10 @@ EXPLANATION = (
     "from the symmetric window (a) and the reversal symmetry of the score (C12.c). NOT decided: maximality of the runs returned "
     "by the run finder (a loop invariant over the data)."
 )
+# obligations added during the build phase (seeding rounds, twins, mutation analysis)
+ADDED_IN_BUILD = " Also: the run finder's state is the carried variable its branch conditions test (the start marker itself or a separate boolean flag): after a False->True transition it is surely not idle, after recording a run it is reset."
+EXPLANATION = EXPLANATION + ADDED_IN_BUILD
+
 ASSUMPTIONS = [
     "Python's ast module and evaluation-order/argument-binding semantics as implemented in skverif/symex.py",
     "library model table skverif/models.py (np.arange, np.column_stack, np.zeros, integer-array subscript stores, np.argmax)",
